@@ -186,6 +186,63 @@ def run_walk_tlc(tree_tla, answers, tag, obs=None, obsrc=0, maxlen=80, simulate=
     return out, st, wd
 
 
+def presented_values(binary, rep):
+    """'each item with its name and current value': the walker re-uses one packet object for all packets of a loop, so what it
+    presents for packet k+1 must not depend on packet k.  Loops whose consecutive packets hold values that extend, repeat,
+    shorten or change the kind of the previous packet's values are walked (all-continue) and the presented (name, value)
+    pairs compared with what was stored, packet by packet"""
+    C = lambda t, q=1: {"k": "char", "t": t, "q": q}
+    N = lambda t: {"k": "numb", "t": t, "q": 0}
+    L = lambda *e: {"k": "list", "e": list(e)}
+    T = lambda *e: {"k": "table", "e": [list(x) for x in e]}
+    columns = {
+        "_a": [N("1"), N("12"), N("123"), N("12"), N("4"), N("4")],
+        "_b": [C("x"), C("x1"), C("x1", 0), C(""), C("y"), C("")],
+        "_c": [C("1", 0), N("1"), C("1"), {"k": "na"}, {"k": "unk"}, C("?")],
+        "_d": [L(C("a")), L(C("a"), C("b")), L(), L(L(C("a"))), T(("k", C("a"))), T(("k", C("a")), ("m", N("2")))],
+        "_e": [{"k": "unk"}, {"k": "unk"}, C("z"), {"k": "unk"}, {"k": "na"}, {"k": "na"}],
+    }
+    names = sorted(columns)
+    npk = 6
+    cmds = [{"op": "cif_create", "cif": "c"}, {"op": "create_block", "cif": "c", "code": "b", "h": "h"}, {"op": "create_loop", "cont": "h", "category": "k", "names": names, "h": "l"}]
+    for i in range(npk):
+        cmds.append({"op": "loop_add_packet", "loop": "l", "packet": [[n, columns[n][i]] for n in names]})
+    cmds += [{"op": "walk", "cif": "c", "script": []}, {"op": "get_packets", "loop": "l", "itr": "j"}] + [{"op": "itr_next", "itr": "j", "ph": "pp"} for _ in range(npk)] + [{"op": "itr_abort", "itr": "j"}]
+    rr = run_cifrun(binary, cmds, timeout=120)
+    if rr.crashed or len(rr.outs) < len(cmds) or any(o.get("rc", 0) != 0 for o in rr.outs[:3 + npk]):
+        rep.violation("presented values: " + sanitizer_signature(rr.stderr), "could not build / walk the loop of related packets: %s" % json.dumps(rr.outs[-2:])[:300], {"commands": cmds, "stderr": rr.stderr[-1500:]})
+        return 0, 0
+    from check_value import full
+    strip = lambda v: json.dumps({k: x for k, x in (full(v) or {}).items() if k not in ("dg", "su", "sc", "d")}, sort_keys=True) if not isinstance(v, list) else None
+    def norm(v):
+        v = full(v)
+        def st(x):
+            if isinstance(x, dict): return {k: st(y) for k, y in x.items() if k not in ("dg", "su", "sc", "d")}
+            if isinstance(x, list): return [st(y) for y in x]
+            return x
+        return json.dumps(st(v), sort_keys=True)
+    want = sorted(json.dumps({n: norm(columns[n][i]) for n in names}, sort_keys=True) for i in range(npk))
+    log_ = rr.outs[3 + npk].get("log", [])
+    got, cur = [], None
+    for e in log_:
+        if e.get("cb") == "packet_start": cur = {}
+        elif e.get("cb") == "item" and cur is not None: cur[e.get("name")] = norm(e.get("v"))
+        elif e.get("cb") == "packet_end" and cur is not None: got.append(json.dumps(cur, sort_keys=True)); cur = None
+    # the same through an iterator whose caller re-uses one packet object
+    got2 = [json.dumps({nm: norm(v) for nm, v in o.get("pkt", [])}, sort_keys=True) for o in rr.outs[3 + npk + 2: 3 + npk + 2 + npk]]
+    n = ok = 2
+    if sorted(got2) != want:
+        bad = [g for g in got2 if g not in want][:2]
+        rep.violation("presented values: an iterator filling a re-used packet delivers values that were not stored", "cif_pktitr_next_packet into one re-used packet delivers %s; stored packets %s" % (bad, want[:3]), {"commands": cmds})
+        ok -= 1
+    if sorted(got) != want:
+        bad = [g for g in got if g not in want][:2]
+        rep.violation("presented values: a packet is presented with values that were not stored in it", "walk of a loop whose packets extend / repeat / change the previous packet's values presents %s; stored packets %s" % (bad, want[:3]),
+                      {"commands": cmds})
+        ok -= 1
+    return n, ok
+
+
 def c14(tier, replay=None):
     rep = Report("C14", tier, "model_checking")
     binary = build("asan")
@@ -268,6 +325,9 @@ def c14(tier, replay=None):
         log("[C14 %s] programs %d ok %d tlc %.1fs" % (name, len(programs), nok, st["wall_s"]))
         if not rep.samples:
             rep.samples.append({"shape": name, "program": programs[len(programs) // 2]["script"], "predicted_log": programs[len(programs) // 2]["log"][:12], "rc": programs[len(programs) // 2]["rc"]})
+    pv = presented_values(binary, rep)
+    total_programs += pv[0]; total_ok += pv[1]
+    log("[C14 presented values] walks %d ok %d" % pv)
     return rep.finish({"states": max(tlc_states, 1), "transitions": max(tlc_trans, 1), "traces_validated_against_impl": total_ok,
                        "handler_programs": total_programs, "shapes": covs, "answers": [0, -1, -2, -3, 10, 1], "exhaustive": True,
                        "explanation": "every assignment of {continue, skip-current, skip-siblings, end, error 10} to the callbacks of each shape (programs are prefixes pruned by the directives)"},
